@@ -32,8 +32,8 @@ def run_proc(seed: int, perm: int, n: int, hashseed: str) -> list[str]:
 
 def gen_cases(rng, tier: str) -> list[dict]:
     return [{"origin": "battery", "seed": rng.randint(1, 10 ** 6), "n": common.sizes(tier, 60, 400),
-             "hashseeds": ["0", "1", "4242"] if tier == "quick" else [str(i * 7919 % 100003) for i in range(16)],
-             "perms": [0, 1, 2] if tier == "quick" else [0, 1, 2, 3, 4, 5]}]
+             "hashseeds": ["0", "1", "2", "3", "4", "7"] if tier == "quick" else [str(i * 7919 % 100003) for i in range(16)],
+             "perms": [0, 1] if tier == "quick" else [0, 1, 2, 3, 4, 5]}]
 
 
 def check_cases(cases: list[dict], rep: Report, known: dict) -> None:
